@@ -1477,9 +1477,9 @@ func knownNonNilPtr(v ssa.Value, b *ssa.BasicBlock) bool {
 			continue
 		}
 		var other ssa.Value
-		if bo.X == v {
+		if bo.X == v || sameExprDeep(bo.X, v, 0) {
 			other = bo.Y
-		} else if bo.Y == v {
+		} else if bo.Y == v || sameExprDeep(bo.Y, v, 0) {
 			other = bo.X
 		} else {
 			continue
@@ -1490,6 +1490,45 @@ func knownNonNilPtr(v ssa.Value, b *ssa.BasicBlock) bool {
 		if bo.Op == token.NEQ && e.Outcome || bo.Op == token.EQL && !e.Outcome {
 			return true
 		}
+	}
+	return false
+}
+
+// sameExprDeep: two SSA values are the same pure read expression (go/ssa has no CSE, so a guard
+// `m[0][0] == nil` and a later `*m[0][0]` are distinct instructions). Loads are compared
+// structurally; an intervening store to the same location is not modelled (straight-line
+// validation code; recorded assumption).
+func sameExprDeep(a, b ssa.Value, depth int) bool {
+	if a == b {
+		return true
+	}
+	if depth > 8 {
+		return false
+	}
+	switch x := a.(type) {
+	case *ssa.Const:
+		y, ok := b.(*ssa.Const)
+		if !ok {
+			return false
+		}
+		ca, oka := constIntOf(x)
+		cb, okb := constIntOf(y)
+		return oka && okb && ca == cb
+	case *ssa.UnOp:
+		y, ok := b.(*ssa.UnOp)
+		return ok && x.Op == y.Op && x.Op == token.MUL && sameExprDeep(x.X, y.X, depth+1)
+	case *ssa.IndexAddr:
+		y, ok := b.(*ssa.IndexAddr)
+		return ok && sameExprDeep(x.X, y.X, depth+1) && sameExprDeep(x.Index, y.Index, depth+1)
+	case *ssa.FieldAddr:
+		y, ok := b.(*ssa.FieldAddr)
+		return ok && x.Field == y.Field && sameExprDeep(x.X, y.X, depth+1)
+	case *ssa.Lookup:
+		y, ok := b.(*ssa.Lookup)
+		return ok && !x.CommaOk && !y.CommaOk && sameExprDeep(x.X, y.X, depth+1) && sameExprDeep(x.Index, y.Index, depth+1)
+	case *ssa.Convert:
+		y, ok := b.(*ssa.Convert)
+		return ok && types.Identical(x.Type(), y.Type()) && sameExprDeep(x.X, y.X, depth+1)
 	}
 	return false
 }
